@@ -221,3 +221,39 @@ def char_in(c, alphabet):
             m |= 1 << ord(ch)
         _AMASK[a] = m
     return _core.U(x.var, _core.pre(x.tab, m))
+
+
+_TMP = [None]
+
+
+def workdir():
+    """directory for harness files: the virtual file system root in symbolic mode, a fresh
+    temporary directory natively"""
+    if _core is not None:
+        return _core.S("/vfs")
+    import tempfile
+    if _TMP[0] is None:
+        _TMP[0] = tempfile.mkdtemp(prefix="vh_")
+    return _TMP[0]
+
+
+def put_file(path, content):
+    if _core is not None:
+        from . import hook
+        hook.VFS.files[_core.to_S(path)] = _core.to_S(content)
+        return
+    import os
+    os.makedirs(os.path.dirname(path), exist_ok=True)
+    with open(path, "w") as f:
+        f.write(content)
+
+
+def clear_files():
+    if _core is not None:
+        from . import hook
+        hook.VFS.reset()
+        return
+    import shutil
+    if _TMP[0] is not None:
+        shutil.rmtree(_TMP[0], ignore_errors=True)
+        _TMP[0] = None
